@@ -2,7 +2,7 @@
 From Coq Require Import List ZArith Bool.
 Import ListNotations.
 From GS Require Import Num NumZ EventLoop Kernel Sim.
-From GS.Proofs Require Import Aux EventLoopP KernelP SimP DriveP SimDriveP.
+From GS.Proofs Require Import Aux EventLoopP KernelP SimP DriveP SimDriveP TraceSpec ClockSpec.
 
 (** Every state reachable from a fresh event loop by any history of API calls keeps all
     queued events at or after the clock (and their sequence numbers distinct). *)
@@ -93,6 +93,29 @@ Theorem C01_requests_not_in_past :
 Proof. intros F A OL PS cfg react h now p. apply (sim_exec_reqs_future A OL). Qed.
 
 (** Non-vacuity: a concrete history on the integer instance. *)
+(** WHOLE RUNS of the composed simulator.  [c_next] / [c_ok] (Proofs/ClockSpec.v) keep one value: the time of the
+    event being executed (0 before the first).  Every callback of a run -- initialize, timer, packet, telemetry,
+    finish, on any node, under any protocol -- reports exactly the provider's reading of that value ([pnow]: the
+    value itself when a timer handler is present, else 0): a callback sees the instant its event was due. *)
+Theorem C01_whole_run_callbacks_see_event_time :
+  forall (F : Type) (A : ArithOps F) (PS : Type) (cfg : scfg F) (react : nat -> PS -> F -> cb F -> PS * list (action F))
+         (c : kcfg F) (fuel : nat) (ps0 : nat -> PS),
+    let '(s0, i0) := sim_start A cfg ps0 in
+    let '(s', items, fin) := k_run A (sim_hooks A cfg react) c fuel s0 in
+    accept (c_next (F:=F)) (c_ok A cfg) (f0 A) (i0 ++ items).
+Proof. intros. apply whole_run_clock. Qed.
+
+(** ... and, events being executed in non-decreasing time order, the times reported to the protocols never decrease
+    from one callback to the next, over the whole run, across all nodes. *)
+Theorem C01_whole_run_times_never_decrease :
+  forall (F : Type) (A : ArithOps F), OrderLaws A ->
+  forall (PS : Type) (cfg : scfg F) (react : nat -> PS -> F -> cb F -> PS * list (action F))
+         (c : kcfg F) (fuel : nat) (ps0 : nat -> PS),
+    let '(s0, i0) := sim_start A cfg ps0 in
+    let '(s', items, fin) := k_run A (sim_hooks A cfg react) c fuel s0 in
+    sorted_from (fleb A) (pnow A cfg (f0 A)) (cb_times items).
+Proof. intros F A OL PS cfg react c fuel ps0. exact (whole_run_times_never_decrease A OL cfg react c fuel ps0). Qed.
+
 Example C01_example :
   snd (el_run Z_ops (el_init Z_ops)
         [OpSchedule 5%Z 0%nat; OpSchedule 3%Z 1%nat; OpPop; OpSchedule 1%Z 2%nat; OpSchedule 3%Z 3%nat; OpPop; OpPop; OpNow])
@@ -104,6 +127,8 @@ Print Assumptions C01_pops_monotone.
 Print Assumptions C01_clock_monotone.
 Print Assumptions C01_past_refused.
 Print Assumptions C01_kernel_exec_times.
+Print Assumptions C01_whole_run_callbacks_see_event_time.
+Print Assumptions C01_whole_run_times_never_decrease.
 Print Assumptions C01_any_driving_exec_times.
 Print Assumptions C01_external_requests_are_driving.
 Print Assumptions C01_callback_sees_due_time.
